@@ -46,6 +46,11 @@ CLAIMS = {
          'TLC enumerates every token sequence of length <= 3 over 58 representative tokens (<= 4 over 31 in thorough), TLC-chosen one-token mutations of the expressions harvested from the repository suite, and every history of <= 3 parse calls over 9 source classes on 2 instances; each is parsed by the four parsers and evaluated in three contexts with the outcome projected to value | coded error | escaped | hang and tested for membership in the legal sets printed by TLC; cursor fields after failures and history independence are compared with a fresh instance; recorded traces are accepted by the trace specification.',
          'escape classes are fingerprinted by (exception class, raising function): a new way to reach a listed class is absorbed by it; hang detection by SIGALRM with a circuit breaker; arbitrary Unicode garbage is not enumerated by TLC',
          'DESIGN.md section 4 C03'),
+ 'C08': ('model_checking',
+         'TLA+ value-state machine SeqModel (sequence of tagged items; 40 actions: predicates, for/some/every/!, range, comma and the sequence/aggregate functions with boundary-grid arguments) explored by TLC with the F&O laws as invariants; every edge replayed as XPath text in literal/constructor/nested spellings on the 2.0/3.0/3.1 parsers; python lists as second oracle for positional functions',
+         'TLC enumerates all sequences of length <= 3 over up to 9 items with every construct and grid argument (-INF..NaN positions and lengths), compositions of two constructs, and checks every = not some not, the subsequence filter identity, reverse/insert-before/remove/head/tail laws, sum/avg/min/max and cardinality-function laws on the specification; each of the 135k edges is evaluated on the real code and compared item by item with type tags.',
+         'node items are opaque (positional constructs only); order and representative of distinct-values, fn:unordered and 2.0 min/max ties across int/decimal are excluded as implementation-dependent',
+         'DESIGN.md section 4 C08'),
 }
 NOT_YET = 'check not built yet (construction in progress, see DESIGN.md section 5)'
 
